@@ -64,7 +64,31 @@ def check(ctx):
         ctx.guard("C03.b PEN-SAVING", pen.qualname, lambda: check_penalise(ctx, pen), pen.loc())
     ctx.guard("C03 DRIVER", drv.qualname, lambda: check_driver(ctx, drv, pen), drv.loc())
     ctx.guard("C03.h IGNORE-POINT", "predict", lambda: check_predicts(ctx, drv), drv.loc())
+    ctx.guard("C03.h IGNORE-POINT", "mvcapa-records", lambda: shared_records(ctx))
     ctx.expect_min("C03", len([o for o in ctx.obs if o.status == "HOLDS"]), 25)
+
+
+def shared_records(ctx):
+    """What MVCAPA reports is the backtracked optimum only if EVERY backtracked collective (and point) anomaly gets its
+    (start, end, components) record: a record skipped on some branch of the component search drops an anomaly that the
+    cumulative scores still count.  The record obligations of C16.a SUBSET-NF, re-run under the C03 id."""
+    from . import c16
+
+    before = len(ctx.obs)
+    mins = dict(ctx.mins)
+    try:
+        c16.check(ctx)
+    except Undecided as u:
+        ctx.undecided("C03.h IGNORE-POINT", "mvcapa-records", "", str(u))
+    ctx.mins = mins
+    kept = []
+    for o in ctx.obs[before:]:
+        if o.status == "UNDECIDED" and o.key == "instance-count":
+            continue
+        if ("SUBSET-NF" in o.rule and "record" in o.key) or o.status == "UNDECIDED":
+            o.rule = f"C03.h IGNORE-POINT ({o.rule})"
+            kept.append(o)
+    ctx.obs[before:] = kept
 
 
 def _calls(ctx, f: FuncInfo):
